@@ -1031,3 +1031,44 @@ pub fn build_aer(op: &Op) -> AerBuilt {
         unreachable!()
     }
 }
+
+/// The section-type field of `GenericErrorData` is assigned through this trait so that the harness
+/// builds against the crate whichever width that pub field has (the specification says 16 bytes).
+pub trait SectionTypeField {
+    fn from_guid(g: [u8; 16]) -> Self;
+}
+impl SectionTypeField for u16 {
+    fn from_guid(g: [u8; 16]) -> Self {
+        u16::from_le_bytes([g[0], g[1]])
+    }
+}
+impl SectionTypeField for [u8; 16] {
+    fn from_guid(g: [u8; 16]) -> Self {
+        g
+    }
+}
+
+pub fn error_severity(i: u8) -> hest::ErrorSeverity {
+    match i {
+        0 => hest::ErrorSeverity::Recoverable,
+        1 => hest::ErrorSeverity::Fatal,
+        2 => hest::ErrorSeverity::Correctable,
+        _ => hest::ErrorSeverity::None,
+    }
+}
+
+pub fn build_error_data(a: &ErrDataArg) -> hest::GenericErrorData {
+    let mut d = hest::GenericErrorData::new(error_severity(a.severity));
+    d.section_type = SectionTypeField::from_guid(a.section_type);
+    d.revision = a.revision;
+    d.validation = a.validation;
+    d.flags = a.flags;
+    d.error_data_length = a.error_data_length;
+    d.fru_id = a.fru_id;
+    d.fru_text = a.fru_text;
+    d.timestamp = a.timestamp;
+    for g in &a.data {
+        d.add_data(Box::new(mk_gas(g)));
+    }
+    d
+}
